@@ -1,11 +1,13 @@
 /-
 C16 — Trace hand-off delivers each call's trace exactly once to the right waiter.
-Property theorems only; helper lemmas live in `ConfModel.Lemmas.Handoff`.
+Property theorems only; helper lemmas live in `ConfModel.Lemmas.Handoff` and
+`ConfModel.Lemmas.HandoffGlue`.
 The statements quantify over *all* operation sequences (any number of names, waiters, steps);
 every operation is atomic, as each runs under the tracer's / builder's mutex, so "any
 interleaving of any number of goroutines" is "any sequence".
 -/
 import ConfModel.Lemmas.Handoff
+import ConfModel.Lemmas.HandoffGlue
 namespace ConfModel.Props.C16
 open ConfModel ConfModel.Handoff
 
@@ -310,5 +312,256 @@ example : (exec (init true) [.add .reqData 1, .add .reqEnd 2, .add .respStart 3,
   decide
 
 end builder
+
+/-! ### the glue around the slots (1): the reference client's per-call hand-off
+`wireTracer.Complete` → `setWireTrace` → `examineWireDetails` (wire_details.go) -/
+section wire
+open WireHandoff HandoffGlue
+
+/-- On EVERY script over any number of calls — the wait of a call begins, its context is done,
+its trace is completed, its grace period ends, in any order — the state machine of the hand-off
+shows at every position exactly what the history-based specification `specObs` allows (the
+predicate the check evaluates on the real `examineWireDetails`).  `specObs` never looks at the
+context events. -/
+theorem wire_exec_eq_spec (bare : List Nat) (ops : List Op) :
+    (exec (init bare) ops).2 = specObs bare ops :=
+  exec_spec_go bare ops (init bare) [] [] (rel_init bare)
+
+/-- A trace completed before the grace period ends is delivered to the waiter of its call,
+exactly once: the examination of a prepared call `k` that begins after `pre` returns the first
+trace completed for `k` in `pre` at once; otherwise it waits, and after `post` — which may
+contain anything but operations of this waiter: completions and waits of other calls, context
+events of every call including `k` — it has obtained the first trace completed for `k` in
+`post`, is still waiting if there is none, and gives up ("not found") only when its grace period
+ends without one.  After the delivery the wait is over (nothing is delivered twice). -/
+theorem wire_delivers_within_grace (bare : List Nat) (pre post : List Op) (k : Nat)
+    (hk : bare.contains k = false)
+    (hidle : ((exec (init bare) pre).1.calls k).waiting = false)
+    (hw : ∀ o ∈ post, usesWaiter k o = false) :
+    let s1 := (exec (init bare) pre).1
+    let s3 := (exec (step s1 (.begin k)).1 post).1
+    (step s1 (.begin k)).2 = (match firstTrace k pre with | some t => .trace t | none => .waiting) ∧
+    (firstTrace k pre = none →
+      (step s3 (.join k)).2 = (match firstTrace k post with | some t => .trace t | none => .waiting) ∧
+      (step s3 (.grace k)).2 = (match firstTrace k post with | some t => .trace t | none => .notFound) ∧
+      (∀ t, firstTrace k post = some t → (step (step s3 (.join k)).1 (.join k)).2 = .idle)) := by
+  intro s1 s3
+  have hk' : ¬ k ∈ bare := by simpa using hk
+  have hwr1 : (s1.calls k).wrapped = true := by
+    show ((exec (init bare) pre).1.calls k).wrapped = true
+    rw [exec_wrapped]; simp [init, hk']
+  have hav1 : (s1.calls k).avail = firstTrace k pre := by
+    show ((exec (init bare) pre).1.calls k).avail = _
+    rw [exec_avail pre _ k (by simp [init, hk'])]; simp [init]
+  have hidle' : (s1.calls k).waiting = false := hidle
+  constructor
+  · cases hf : firstTrace k pre with
+    | some t => rw [hf] at hav1; simp [step, hidle', hwr1, hav1]
+    | none => rw [hf] at hav1; simp [step, hidle', hwr1, hav1]
+  · intro hnone
+    rw [hnone] at hav1
+    have hs2 : (step s1 (.begin k)).1 = ⟨upd s1.calls k { s1.calls k with waiting := true }⟩ := by
+      simp [step, hidle', hwr1, hav1]
+    have hwr3 : (s3.calls k).wrapped = true := by
+      show ((exec (step s1 (.begin k)).1 post).1.calls k).wrapped = true
+      rw [exec_wrapped, step_wrapped]; exact hwr1
+    have hav3 : (s3.calls k).avail = firstTrace k post := by
+      show ((exec (step s1 (.begin k)).1 post).1.calls k).avail = _
+      rw [exec_avail post _ k (by rw [step_wrapped]; exact hwr1), hs2]
+      simp [hav1]
+    have hwt3 : (s3.calls k).waiting = true := by
+      show ((exec (step s1 (.begin k)).1 post).1.calls k).waiting = true
+      rw [exec_waiting post _ k hw, hs2]; simp
+    refine ⟨?_, ?_, ?_⟩
+    · cases hf : firstTrace k post with
+      | some t => rw [hf] at hav3; simp [step, hwt3, hav3]
+      | none => rw [hf] at hav3; simp [step, hwt3, hav3]
+    · cases hf : firstTrace k post with
+      | some t => rw [hf] at hav3; simp [step, hwt3, hav3]
+      | none => rw [hf] at hav3; simp [step, hwt3, hav3]
+    · intro t hf
+      rw [hf] at hav3
+      have : (step s3 (.join k)).1 = ⟨upd s3.calls k { s3.calls k with waiting := false }⟩ := by
+        simp [step, hwt3, hav3]
+      rw [this]
+      simp [step]
+
+/-- non-vacuity: the context of call 0 is done before its wait begins and the trace is completed
+only afterwards (the grace period's very purpose); call 1 completes in between -/
+example :
+    let pre : List Op := [.ctxDone 0, .begin 1]
+    let post : List Op := [.complete 1 8, .ctxDone 0, .join 1, .complete 0 7]
+    ((exec (init []) pre).1.calls 0).waiting = false ∧ (∀ o ∈ post, usesWaiter 0 o = false) ∧
+    firstTrace 0 pre = none ∧ firstTrace 0 post = some 7 ∧
+    (exec (init []) (pre ++ [.begin 0] ++ post ++ [.join 0, .join 0])).2 =
+      [.none, .waiting, .waiting, .none, .none, .trace 8, .none, .trace 7, .idle] := by decide
+
+/-- … whatever the state of the call's context: removing every context event from a script
+changes none of the other observations. -/
+theorem wire_ctx_irrelevant (bare : List Nat) (ops : List Op) :
+    dropCtxObs ops (exec (init bare) ops).2 = (exec (init bare) (ops.filter (fun o => !isCtx o))).2 := by
+  rw [wire_exec_eq_spec, wire_exec_eq_spec]
+  exact specGo_filter_ctx bare ops [] [] [] (fun _ => rfl)
+
+example : dropCtxObs [.ctxDone 0, .begin 0, .ctxDone 0, .complete 0 7, .join 0]
+      (exec (init []) [.ctxDone 0, .begin 0, .ctxDone 0, .complete 0 7, .join 0]).2 =
+    [.waiting, .none, .trace 7] := by decide
+
+/-- … to the right waiter: a completion for another call changes nothing for call `k` -/
+theorem wire_right_waiter (s : St) (j k t : Nat) (h : j ≠ k) :
+    (step s (.complete j t)).1.calls k = s.calls k :=
+  step_other s _ k h
+
+/-- giving up is only possible when the grace period ends: no other operation makes a pending
+wait return without its trace -/
+theorem wire_gives_up_only_at_grace (s : St) (o : Op) (h : (step s o).2 = .notFound) :
+    ∃ k, o = .grace k ∧ (s.calls k).waiting = true ∧ (s.calls k).avail = none := by
+  cases o with
+  | begin k =>
+    simp only [step] at h
+    split at h
+    · simp at h
+    · split at h
+      · simp at h
+      · split at h <;> simp at h
+  | ctxDone k => simp [step] at h
+  | complete k t =>
+    simp only [step] at h
+    split at h
+    · simp at h
+    · split at h <;> simp at h
+  | grace k =>
+    refine ⟨k, rfl, ?_⟩
+    simp only [step] at h
+    split at h
+    · rename_i hwt
+      refine ⟨hwt, ?_⟩
+      cases ha : (s.calls k).avail with
+      | none => rfl
+      | some t => rw [ha] at h; simp at h
+    · simp at h
+  | join k =>
+    simp only [step] at h
+    split at h
+    · split at h <;> simp at h
+    · simp at h
+  | peek k =>
+    simp only [step] at h
+    split at h
+    · split at h <;> simp at h
+    · simp at h
+
+example : (step (exec (init []) [.ctxDone 0, .begin 0]).1 (.grace 0)).2 = .notFound := by decide
+
+end wire
+
+/-! ### the glue around the slots (2): the server-side middleware hands over a final trace
+(`TracingHandler`, `tracingResponseWriter.tryFinish / setTrailers`, `builder.add`) -/
+section handler
+open HandlerTrace HandoffGlue
+
+/-- Every handler call — whatever the handler does: headers, trailers announced or prefixed,
+writes that fail, request-body errors, cancellation, a panic — hands exactly one trace to the
+collector. -/
+theorem handler_delivers_once (acts : List Act) : (run acts).delivered.length = 1 := by
+  unfold run finish
+  have h := once_runActs acts init once_init
+  have h1 := tryFinish_closed (if (runActs init acts).2 = true then Closer.respEndPanic else Closer.respEnd) _ h
+  rw [close_of_not_live _ _ (by rw [close_of_not_live _ _ h1.1]; exact h1.1), close_of_not_live _ _ h1.1]
+  exact h1.2
+
+/-- A trace handed over by the end of the response (`tryFinish`: the handler returned, panicked,
+or a write failed) is final: what its consumer sees when everything is over is what it saw at
+the moment of completion — the trailers are copied in before the completing event is added,
+and the response object is never written to afterwards.  For every handler script. -/
+theorem handler_trace_final_of_resp_end (acts : List Act) :
+    ∀ d ∈ (run acts).delivered, d.snap.closer.isRespEnd = true → viewAtEnd (run acts) d = d.snap :=
+  fun d hd hr => (inv_run acts d hd hr).2.2
+
+/-- FULL statement wanted: `∀ acts, isFinal (run acts) = true` — the trace handed over is final
+for every handler script.  It does NOT hold for the code as it is (witness below, finding F28):
+when the operation is ended early by the request side or by cancellation *after* the response
+has started, `tryFinish` still runs `setTrailers` later, and that writes into the
+`http.Response` the handed-over trace points to.  Proved: without such an early end the one
+trace is handed over by the end of the response and is final. -/
+theorem handler_trace_final_partial (acts : List Act) (h : ∀ a ∈ acts, isEarlyEnd a = false) :
+    isFinal (run acts) = true ∧
+    ∃ d, (run acts).delivered = [d] ∧ d.snap.closer.isRespEnd = true := by
+  have hheld := held_runActs acts init h (Or.inl ⟨rfl, rfl, rfl⟩)
+  have h1 := held_tryFinish (if (runActs init acts).2 = true then Closer.respEndPanic else Closer.respEnd)
+    (by split <;> rfl) _ hheld
+  have hrun : run acts = tryFinish (if (runActs init acts).2 = true then Closer.respEndPanic else Closer.respEnd)
+      (runActs init acts).1 := by
+    unfold run finish
+    rw [close_of_not_live _ _ (by rw [close_of_not_live _ _ h1.1]; exact h1.1), close_of_not_live _ _ h1.1]
+  obtain ⟨hl, d, hd, hr⟩ := h1
+  rw [← hrun] at hd
+  refine ⟨?_, d, hd, hr⟩
+  have hfin := handler_trace_final_of_resp_end acts d (by rw [hd]; simp) hr
+  unfold isFinal finalView atCompletion
+  rw [hd]
+  simp [hfin]
+
+/-- non-vacuity: a gRPC-style handler: announced and prefixed trailers, set after the body -/
+example :
+    let acts : List Act := [.declare ["Grpc-Status"], .write true, .set (.plain "Grpc-Status") "0",
+      .set (.pre "Grpc-Message") "fine"]
+    (∀ a ∈ acts, isEarlyEnd a = false) ∧
+    atCompletion (run acts) = [⟨.respEnd, some ⟨200, [(.plain "Trailer", ["Grpc-Status"])],
+      [("Grpc-Message", ["fine"]), ("Grpc-Status", ["0"])]⟩⟩] := by decide
+
+/-- the witness of finding F28: the request body is closed after the response has started (the
+trace is completed there), the handler then sets a trailer and returns — the handed-over trace
+changes afterwards -/
+theorem handler_trace_not_final_witness :
+    isFinal (run [.declare ["X-T"], .writeHeader 200, .closeReq, .set (.plain "X-T") "1"]) = false := by
+  decide
+
+/-- `WriteHeader` seeds the trace's trailers with exactly the announced names -/
+theorem writeHeader_announces (st : Nat) (s : St) (h : s.started = false) (n : String) :
+    ((writeHeader st s).resp.trailer.lookup n).isSome = s.decl.contains n := by
+  unfold writeHeader
+  simp only [h, Bool.false_eq_true, if_false]
+  rw [seed_lookup]; simp
+
+/-- … and when the response ends, the trailers copied into the trace are exactly what belongs to
+the response as trailers (`trailerSpec`: announced names with their plain and prefixed values,
+other names through their prefixed entry only), read from the header map as it is then. -/
+theorem tryFinish_trailers_complete (c : Closer) (s : St) (declared : List String)
+    (hf : s.finished = false) (hn : NodupKeys s.hdr)
+    (hd : ∀ n, ((writeHeader 200 s).resp.trailer.lookup n).isSome = declared.contains n) (n : String) :
+    (tryFinish c s).resp.trailer.lookup n = trailerSpec declared s.hdr n := by
+  have hwh : (writeHeader 200 s).hdr = s.hdr := by unfold writeHeader; split <;> rfl
+  have : (tryFinish c s).resp.trailer = setTrailers (writeHeader 200 s).resp.trailer s.hdr := by
+    unfold tryFinish
+    simp only [hf, Bool.false_eq_true, if_false]
+    unfold close
+    split <;> simp [hwh]
+  rw [this]
+  exact setTrailers_lookup _ _ declared n hn (hd n)
+
+/-- the header map of every reachable state has distinct keys (hypothesis of the previous theorem) -/
+theorem handler_hdr_nodup : ∀ (acts : List Act) (s : St), NodupKeys s.hdr → NodupKeys (runActs s acts).1.hdr
+  | [], _, h => h
+  | .panic :: _, _, h => h
+  | .set k v :: as, s, h => handler_hdr_nodup as _ (nodup_step s _ h)
+  | .add k v :: as, s, h => handler_hdr_nodup as _ (nodup_step s _ h)
+  | .declare n :: as, s, h => handler_hdr_nodup as _ (nodup_step s _ h)
+  | .declareAdd n :: as, s, h => handler_hdr_nodup as _ (nodup_step s _ h)
+  | .writeHeader st :: as, s, h => handler_hdr_nodup as _ (nodup_step s _ h)
+  | .write ok :: as, s, h => handler_hdr_nodup as _ (nodup_step s _ h)
+  | .flush :: as, s, h => handler_hdr_nodup as _ (nodup_step s _ h)
+  | .readEof :: as, s, h => handler_hdr_nodup as _ (nodup_step s _ h)
+  | .readErr :: as, s, h => handler_hdr_nodup as _ (nodup_step s _ h)
+  | .closeReq :: as, s, h => handler_hdr_nodup as _ (nodup_step s _ h)
+  | .cancel :: as, s, h => handler_hdr_nodup as _ (nodup_step s _ h)
+
+example : NodupKeys init.hdr ∧ init.finished = false := ⟨List.nodup_nil, rfl⟩
+
+example : trailerSpec ["X-T"] [(.plain "X-T", ["a"]), (.pre "X-T", ["b"]), (.pre "X-P", ["p"]), (.plain "X-Q", ["q"])] "X-T" = some ["a", "b"] ∧
+    trailerSpec ["X-T"] [(.plain "X-T", ["a"]), (.pre "X-P", ["p"]), (.plain "X-Q", ["q"])] "X-P" = some ["p"] ∧
+    trailerSpec ["X-T"] [(.plain "X-T", ["a"]), (.pre "X-P", ["p"]), (.plain "X-Q", ["q"])] "X-Q" = none := by decide
+
+end handler
 
 end ConfModel.Props.C16
